@@ -11,6 +11,7 @@ if ! git -C $wt apply $seed/patch.diff 2>/dev/null; then
 fi
 (cd $wt && go test -vet=off -count=1 ./... >/dev/null 2>&1); suite=$?
 mkdir -p $wt/_verif; for q in $(${JSCHECK:-/verif/bin/jscheck} -list); do mkdir -p $wt/_verif/$q; cp /verif/known_findings.txt $wt/_verif/$q/; done
-fired=$(for p in $(${JSCHECK:-/verif/bin/jscheck} -list); do echo $p; done | xargs -P 10 -I{} sh -c "${JSCHECK:-/verif/bin/jscheck} -prop {} -tier quick -repo $wt -verif $wt/_verif/{} >$wt/_verif/{}.log 2>&1; rc=\$?; [ \$rc -ne 0 ] && echo {}:rc\$rc:\$(grep -oE '^\s+C[0-9]+/[A-Za-z0-9_.-]+' $wt/_verif/{}.log | sort -u | tr -d ' ' | tr '\n' ',')" | sort | tr '\n' ' ')
+${JSCHECK:-/verif/bin/jscheck} -all -repo $wt -verif $wt/_verif > $wt/_verif/all.log 2>&1
+fired=$(grep '^ALL-FIRED' $wt/_verif/all.log | sed 's/^ALL-FIRED *//')
 echo "$seed suite=$suite fired=[$fired]"
-if [ -n "$fired" ]; then mkdir -p /tmp/benlogs/$(echo $seed | tr / _); cp $wt/_verif/*.log /tmp/benlogs/$(echo $seed | tr / _)/; fi
+if [ -n "$fired" ]; then mkdir -p /tmp/benlogs/$(echo $seed | tr / _); cp $wt/_verif/all.log /tmp/benlogs/$(echo $seed | tr / _)/; fi
